@@ -258,3 +258,6 @@ impl<'de> serde::Deserialize<'de> for SharedString {
         deserializer.deserialize_string(Visitor)
     }
 }
+
+#[cfg(kani)]
+include!(concat!(env!("ASSETS_MANAGER_VERIF"), "/incrate/utils_string.rs"));
